@@ -27,7 +27,7 @@ void h_eit_approx(void)
 }
 
 /* ---- PRM::setProblemDefinition / clearQuery ---- */
-int pdef_, base_set, query_cleared; size_t startM_n, goalM_n; bool pis_restarted;
+int pdef_, base_set, query_cleared, solutions_cleared; size_t startM_n, goalM_n; bool pis_restarted;
 static void BASE_SET(int p) { pdef_ = p; base_set++; }
 void prm_clearQuery(void)
 /*@BODY clearQuery@*/
